@@ -903,6 +903,14 @@ class LuaASTEchoWriter(BaseLuaWriter):
                 self._indent -= 1
         if not short_if:
             yield self._get_text(node, b'end')
+        elif len(node.exp_block_pairs) == 1:
+            # A short-if may end in an 'else' with nothing after it, which
+            # the parser does not keep in the AST.
+            yield self._get_code_for_spaces(node)
+            if (self._pos < node.end_pos and
+                    self._tokens[self._pos].matches(
+                        lexer.TokKeyword(b'else'))):
+                yield self._get_text(node, b'else')
 
     def _walk_StatForStep(self, node):
         yield self._get_text(node, b'for')
